@@ -138,11 +138,41 @@ def pixel_oracle(ctx):
         if kind == 7:
             # curves hundreds of pixels long of which the surface sees a small window (zoomed-in content): forward
             # differencing with many steps, edges that start far above / left of the surface
-            S = rng.choice([300, 800, 1500])
+            S = rng.choice([300, 800, 1500, 3000, 3000, 3800])
+            W = H = 48
             ops = scene.curvy_path(rng, S, S)
+            if rng.random() < 0.5:      # one big quadratic closed by its chord: the longest forward-differencing runs
+                # the control point far from the chord: second differences of up to twice the size of the curve
+                q0 = (rng.randrange(0, S) / 4.0, rng.randrange(0, S) / 4.0)
+                q2 = (S - rng.randrange(0, S) / 4.0, rng.randrange(0, S) / 4.0)
+                q1 = (S / 2.0 + rng.randrange(-S, S) / 4.0, S - rng.randrange(0, S) / 8.0)
+                if rng.random() < 0.5:
+                    q0, q1, q2 = [(b_, a_) for a_, b_ in (q0, q1, q2)]
+                ops = ["M " + scene.fpt(*q0), "Q %s %s" % (scene.fpt(*q1), scene.fpt(*q2)), "Z"]
             while ops and ops[0] == "Z":
                 ops = ops[1:]
             ox, oy = rng.randrange(0, S - W), rng.randrange(0, S - H)
+            # mostly: the window sits on the outline, somewhere along one of the curves
+            from .C17 import curve_extremes
+            cps = []
+            cur = None
+            for o in ops:
+                t_ = o.split()
+                v_ = [bits_f32(int(z)) for z in t_[1:] if z.lstrip("-").isdigit()]
+                if t_[0] in ("M", "L"):
+                    cur = (v_[0], v_[1])
+                elif t_[0] in ("Q", "C"):
+                    n_ = 4 if t_[0] == "Q" else 6
+                    pts_ = [(v_[j], v_[j + 1]) for j in range(0, n_, 2)]
+                    full = [cur or pts_[0]] + pts_
+                    tt = rng.random()
+                    cps.append(geom.quad(full[0], full[1], full[2], tt) if t_[0] == "Q" else geom.cubic(full[0], full[1], full[2], full[3], tt))
+                    cur = pts_[-1]
+                elif t_[0] == "Z":
+                    cur = None
+            if cps and rng.random() < 0.8:
+                cx_, cy_ = rng.choice(cps)
+                ox, oy = int(cx_) - rng.randrange(2, W - 2), int(cy_) - rng.randrange(2, H - 2)
             xf = (1.0, 0.0, 0.0, 1.0, float(-ox), float(-oy))
         if kind == 9:
             # strongly down-scaling transform with correspondingly large user-space coordinates: every tolerance the
@@ -185,7 +215,7 @@ def eval_scenes(ctx, scenes, meta, what="px"):
             if abs(det) < 0.2:
                 continue
         subs = fine_polygons(tops, xf)
-        if not subs or any(not geom.finite(*p) or abs(p[0]) > 3000 or abs(p[1]) > 3000 for s_ in subs for p in s_):
+        if not subs or any(not geom.finite(*p) or abs(p[0]) > 4500 or abs(p[1]) > 4500 for s_ in subs for p in s_):
             continue
         W, H = int(sline.split()[2]), int(sline.split()[3])
         for y in range(H):
